@@ -143,7 +143,7 @@ func (e *engine) Generate(seed uint64, idx int, tier string, avoid []harness.Fin
 		c.Scen = "s4"
 		c.R = 2 + r.Intn(3)
 		for i := 0; i < c.R; i++ {
-			c.Work = append(c.Work, []string{"defvar", "defun", "generic", "print", "lambda", "exit", "exit"}[r.Intn(7)])
+			c.Work = append(c.Work, []string{"defvar", "defun", "generic", "print", "lambda", "exit", "exit", "defclass", "defflavor"}[r.Intn(9)])
 		}
 	}
 	c.Policy = []string{sched.PolicyRandom, sched.PolicyRandom, sched.PolicyPCT, sched.PolicyRTB, sched.PolicyRR}[r.Intn(5)]
@@ -344,6 +344,12 @@ func (c *Case) program(sfx string) program {
 		case "print":
 			body = fmt.Sprintf("(sim-emit \"r\" %d (write-to-string '(a%d (b \"c%d\" (d e f) #(1 2 %d)) 1.5 %d) :pretty t :right-margin 20) (write-to-string '(x%d (y . z) \"q\") :pretty nil) (format nil \"~a-~s-~d\" 'k%d \"s\" %d))",
 				t, t, t, t, t, t, t, t)
+		case "defclass":
+			body = fmt.Sprintf("(progn (defclass k%d%s () ((a :initform %d :accessor k%d%s-a))) (let ((o (make-instance 'k%d%s))) (setf (k%d%s-a o) (+ 1 (k%d%s-a o))) (sim-emit \"r\" %d (k%d%s-a o) (slot-value o 'a))))",
+				t, sfx, t*7, t, sfx, t, sfx, t, sfx, t, sfx, t, t, sfx)
+		case "defflavor":
+			body = fmt.Sprintf("(progn (defflavor fl%d%s ((x %d)) () :gettable-instance-variables :settable-instance-variables) (let ((o (make-instance 'fl%d%s))) (send o :set-x (+ 2 (send o :x))) (sim-emit \"r\" %d (send o :x))))",
+				t, sfx, t*5, t, sfx, t)
 		case "exit":
 			// several routines run the same compiled return-from at once
 			body = fmt.Sprintf("(dotimes (k 3) (sim-emit \"r\" %d (sharedexit%s %d)))", t, sfx, t+1)
